@@ -148,6 +148,23 @@ def plan(rng, tier):
         # exploratory only (tools/survey.py --tier survey), not part of the
         # registered check: CPython's own allocator fails (see DESIGN 10)
         mode = "pyalloc"
+    if tier != "survey" and rng.random() < 0.3 and op[0] not in (
+            "setstate", "getstate", "ctork", "resolve"):
+        # the container is stored in a database and (part of) its nodes are
+        # ghosts when the operation starts: the allocations of the node
+        # loads the operation triggers fail too
+        mode = "stored"
+        if g.model.d and rng.random() < 0.5:
+            k = rng.choice(g.model.skeys())
+            op = rng.choice([["del", k], ["pop", k], ["del", k]] if mapping
+                            else [["remove", k], ["discard", k]])
+        cfg["sweep"] = rng.choice([["minimize"], ["minimize"],
+                                   ["some", rng.randrange(1 << 16)],
+                                   ["leaves"], ["interior"]])
+        if cfg["dom"].get("kflavor") == "hk":
+            cfg["dom"]["kflavor"] = "int"
+        if cfg["dom"].get("vflavor") == "tv":
+            cfg["dom"]["vflavor"] = "int"
     follow = []
     # the follow-up grows the very region that failed
     if op[0] in ("set", "setdefault", "insert", "add", "sinsert"):
@@ -434,6 +451,210 @@ def _one(plan, dom, cfg, ctx, n, nalloc, L0, L1, baseline, tracked, h, base,
     ctx.interleaving((opn, min(n, 8), min(nalloc, 8), verdict))
 
 
+DELETING = ("del", "pop", "popd", "popitem", "remove", "discard", "spop",
+            "isub", "iand", "ixor", "clear")
+
+
+def _stored_world(plan, dom):
+    """-> (conn, container): built, committed, swept as planned"""
+    from ..world import SimStorage, SimConnection, GHOST
+    cfg = plan["cfg"]
+    kind = cfg["kind"]
+    conn = SimConnection(SimStorage(cfg.get("protocol", 3)), "c")
+    c = dom.new(kind, "c")
+    conn.add(c)
+    for op in plan["build"]:
+        ops.apply(c, op, dom, "c", kind)
+    common.commit(conn, None)
+    sw = cfg.get("sweep") or ["minimize"]
+    if sw[0] == "minimize":
+        conn.sweep("minimize")
+    else:
+        nodes = conn.nodes()
+        pick = set()
+        for j, o in enumerate(nodes):
+            leaf = not hasattr(o, "_firstbucket")
+            if sw[0] == "some":
+                if (sw[1] >> (j % 16)) & 1:
+                    pick.add(o._p_oid)
+            elif (sw[0] == "leaves") == leaf:
+                pick.add(o._p_oid)
+        conn.sweep("deactivate", pick)
+    return conn, c
+
+
+class _LoadWatch(object):
+    """notes whether a MemoryError came out of a node load"""
+
+    def __init__(self, conn):
+        self.conn = conn
+        self.failed = 0
+        self.loads = 0
+        orig = conn.setstate
+
+        def setstate(obj):
+            self.loads += 1
+            try:
+                orig(obj)
+            except MemoryError:
+                self.failed += 1
+                raise
+        conn.setstate = setstate
+
+    def close(self):
+        del self.conn.setstate
+        self.conn = None
+
+
+def _one_stored(plan, dom, cfg, ctx, n, nalloc, L0, L1, h, base):
+    kind = cfg["kind"]
+    mapping = is_mapping(kind)
+    op = plan["op"]
+    opn = op[0] if op[0] != "mod" else op[1]
+    cm = _cmod(dom)
+    conn, c = _stored_world(plan, dom)
+    watch = _LoadWatch(conn)
+    live = [(c, mapping)]
+    cm._verif_alloc_arm(0)
+    try:
+        out = _do(plan, dom, c, live, lambda: cm._verif_alloc_arm(n))
+    finally:
+        watch.close()
+    seen, fired = _Arm.stats
+    _Arm.target = None
+    if not fired:
+        return
+    where = "node-load" if watch.failed else "operation"
+    ctx.fault("alloc-fail")
+    ctx.fault("alloc-fail-in-" + where)
+    sig = dict(base, stored=True, where=where,
+               opclass="delete" if opn in DELETING else "other")
+    ctx.ev(opn, "stored", n, nalloc, out[0],
+           out[1] if out[0] == "exc" else None)
+    what = "%r on a stored container (sweep %r), allocation %d of %d " \
+        "failing (inside a %s)" % (op, cfg.get("sweep"), n, nalloc, where)
+    if out != ("exc", "MemoryError"):
+        raise Violation(
+            dict(sig, oracle="not-reported",
+                 got=out[1] if out[0] == "exc" else "returned"),
+            "%s: the call -> %r (must raise MemoryError)" % (what, out))
+    if is_tree(kind):
+        # the walker first: it names the damage (signature)
+        try:
+            w = walker.walk(c, dom, mapping)
+            problems = sorted(set(w.problems))
+        except Exception as e:
+            problems = ["walk-raised-" + type(e).__name__]
+        if problems:
+            raise Violation(dict(sig, oracle="unsound",
+                                 problem=problems[0]),
+                            "%s: afterwards the walker finds %r" % (
+                                what, problems))
+    try:
+        got = cmpfault._plain(ops.listing(c, mapping), dom, mapping)
+    except Exception as e:
+        raise Violation(dict(sig, oracle="listing-raised",
+                             exc=type(e).__name__),
+                        "%s; listing the container afterwards raised %r" % (
+                            what, e))
+    if is_tree(kind):
+        try:
+            common.structural(c, dom, cfg, None, None, check_sizes=False,
+                              who=opn)
+        except Violation as v:
+            raise Violation(dict(sig, oracle="unsound",
+                                 by=v.sig.get("oracle")),
+                            "%s: %s" % (what, v.detail))
+    extra = None
+    if op[0] == "update":
+        extra = set((dom.pkid(ops.K(dom, kk)), dom.pvid(ops.V(dom, vv)))
+                    for kk, vv in op[1])
+    verdict = cmpfault._contents_verdict(op, L0, L1, got, mapping, extra)
+    if opn in cmpfault.READONLY and verdict != "old":
+        verdict = None
+    if verdict is None:
+        raise Violation(
+            dict(sig, oracle="partial-contents"),
+            "%s: contents %r are neither the previous %r nor the completed "
+            "%r" % (what, got[:30], L0[:30], L1[:30]))
+    model = ops.Model(dom, kind)
+    kidx = {dom.pkid(k): i for i, k in enumerate(dom.keys)}
+    vidx = {}
+    for j, v in enumerate(dom.vals):
+        vidx.setdefault(dom.pvid(v), j)
+    for e in got:
+        k = e[0] if mapping else e
+        model.d[kidx[k]] = vidx[e[1]] if mapping else True
+    cmpfault.query_sweep(c, model, dom, "c", kind, sig, what)
+    for f in plan["follow"]:
+        want = model.apply(f)
+        have = ops.apply(c, f, dom, "c", kind)
+        if f[0] in ("update", "supdate") and have[0] == "ok":
+            have = ("ok", None)
+        if not ops.same_outcome(have, want) or not ops.same_value(
+                ops.listing(c, mapping), model.listing()):
+            raise Violation(
+                dict(sig, oracle="follow-up", fop=f[0]),
+                "%s; afterwards %r -> %r, model %r" % (what, f, have, want))
+    if is_tree(kind):
+        try:
+            common.structural(c, dom, cfg, None, None, check_sizes=False,
+                              who="follow")
+        except Violation as v2:
+            raise Violation(dict(sig, oracle="unsound-later",
+                                 by=v2.sig.get("oracle")), v2.detail)
+    ctx.nontriv((kind, common.fam_class(dom.fam), opn, "stored", where,
+                 min(n, 8), min(nalloc, 8), min(h, 4), verdict))
+    ctx.interleaving((opn, "stored", where, verdict))
+
+
+def _execute_stored(plan, ctx, dom, cfg):
+    kind = cfg["kind"]
+    mapping = is_mapping(kind)
+    op = plan["op"]
+    opn = op[0] if op[0] != "mod" else op[1]
+    cm = _cmod(dom)
+    base = {"kind": kind, "op": opn, "fam": common.fam_class(dom.fam)}
+    try:
+        conn0, c0 = _stored_world(plan, dom)
+        w0 = _LoadWatch(conn0)
+        L0 = cmpfault._plain(dom_listing_unloaded(plan, dom), dom, mapping)
+        cm._verif_alloc_arm(0)
+        _do(plan, dom, c0, [(c0, mapping)],
+            lambda: cm._verif_alloc_arm(0))
+        nalloc = _Arm.stats[0]
+        w0.close()
+        _Arm.target = None
+        L1 = cmpfault._plain(ops.listing(c0, mapping), dom, mapping)
+        h = 0
+        if is_tree(kind):
+            try:
+                h = walker.walk(c0, dom, mapping).height
+            except Exception:
+                h = -1
+        if w0.loads:
+            ctx.probe("stored-op-loaded-nodes")
+        del c0, conn0
+        if nalloc == 0:
+            ctx.probe("no-allocations")
+            return
+        ctx.probe("stored-allocations-%d" % min(nalloc, 8))
+        for n in range(1, min(nalloc, 64) + 1):
+            _one_stored(plan, dom, cfg, ctx, n, nalloc, L0, L1, h, base)
+    finally:
+        cm._verif_alloc_arm(0)
+
+
+def dom_listing_unloaded(plan, dom):
+    """the committed contents, listed from a world of its own (so that
+    listing does not load the nodes of the world under test)"""
+    cfg = plan["cfg"]
+    c = dom.new(cfg["kind"], "c")
+    for op in plan["build"]:
+        ops.apply(c, op, dom, "c", cfg["kind"])
+    return ops.listing(c, is_mapping(cfg["kind"]))
+
+
 def execute(plan, ctx):
     from .. import env
     cfg = plan["cfg"]
@@ -446,6 +667,10 @@ def execute(plan, ctx):
     opn = op[0] if op[0] != "mod" else op[1]
     cm = _cmod(dom)
     base = {"kind": kind, "op": opn, "fam": common.fam_class(dom.fam)}
+    if plan.get("mode") == "stored":
+        keys.HOOK.reset()
+        _execute_stored(plan, ctx, dom, cfg)
+        return
     tracked = _tracked(dom)
     gc.collect()
     baseline = {id(o): sys.getrefcount(o) for o in tracked}
